@@ -802,6 +802,8 @@ def classify(case, obs):
     t = [k]
     if k == "b64":
         t.append("b64-error" if obs["out"] is None else "b64-ok")
+    elif k == "b64enc":
+        t.append(f"b64enc-len%3={len(case['data']) // 2 % 3}")
     elif k == "utf":
         t.append(f"utf-h{case['h']}")
         t.append("utf-reencodes" if obs["back"] == case["data"] else "utf-lossy")
